@@ -444,6 +444,13 @@ pub fn main(seed: u64, tier: &str, only: Option<&str>) {
             run_case(&format!("many{}-{:?}", k, v), &wasm, 4, 1, v, &mut stats);
         }
     }
+    let ishapes: &[(usize, usize, usize)] = if tier == "thorough" { &[(125, 10, 3), (126, 10, 3), (127, 10, 3), (127, 10, 1), (128, 10, 2), (2, 127, 2)] } else { &[(126, 10, 3), (127, 10, 1)] };
+    for (k, (nf, pad, ni)) in ishapes.iter().enumerate() {
+        let wasm = offsets::many_with_imports(*nf, *pad, *ni);
+        for v in [Variant::Unchanged, Variant::Inserted] {
+            run_case(&format!("imany{}-{:?}", k, v), &wasm, if k % 2 == 0 { 4 } else { 5 }, 1, v, &mut stats);
+        }
+    }
     out::stat("dwarf.cases", stats.cases);
     out::stat("dwarf.rows_in", stats.rows_in);
     out::stat("dwarf.rows_out", stats.rows_out);
